@@ -40,6 +40,9 @@ type C17Case struct {
 	Procs   int       `json:"procs"`
 	Items   []C17Item `json:"items"`
 	Workers [][]C17Op `json:"workers"`
+	// Records: the struct types of the items are registered as record types (named per item), so that the
+	// documents define record types and the goroutines are inside record type definitions at the same time
+	Records bool `json:"records,omitempty"`
 }
 
 var c17Seq int64
@@ -123,6 +126,7 @@ func genC17(t *rapid.T, ctx *Ctx) interface{} {
 		c17AddUniqVals(it.Type, it.Val)
 		c.Items = append(c.Items, it)
 	}
+	c.Records = rapid.Bool().Draw(t, "records")
 	workers := rapid.IntRange(2, 16).Draw(t, "workers")
 	valKinds := []string{"m-cbe", "m-cte", "ms-cbe", "ms-cte", "ms-cbe", "ms-cte", "mo-cbe", "mo-cte", "u-cbe", "u-cte", "us-cbe", "us-cte", "us-cbe", "us-cte"}
 	evKinds := []string{"ev-cbe", "ev-cte"}
@@ -297,6 +301,20 @@ func init() {
 			prev := runtime.GOMAXPROCS(c.Procs)
 			defer runtime.GOMAXPROCS(prev)
 			cfg := newCfg()
+			if c.Records {
+				seen := map[reflect.Type]bool{}
+				for i, it := range c.Items {
+					var structs []*gen.TypeSpec
+					findStructs(it.Type, &structs)
+					for j, st := range structs {
+						if rt := st.Realize(); !seen[rt] && j < 3 {
+							seen[rt] = true
+							cfg.Iterator.RecordTypes[rt] = fmt.Sprintf("rec%d_%d", i, j)
+						}
+					}
+				}
+				ctx.LabelIf(len(seen) > 0, "items with record types")
+			}
 			env := &c17Env{cfg: cfg, isess: iterator.NewSession(nil, cfg), bsess: builder.NewSession(nil, cfg), docs: map[string][]byte{}}
 			for _, it := range c.Items {
 				if it.Type != nil {
